@@ -49,9 +49,11 @@ class FCodeMapper(LokiStringifyMapper):
     map_int_literal = map_float_literal
 
     def map_logical_not(self, expr, enclosing_prec, *args, **kwargs):
-        return self.parenthesize_if_needed(
-            ".not." + self.rec(expr.child, PREC_UNARY, *args, **kwargs),
-            enclosing_prec, PREC_UNARY)
+        child = self.rec(expr.child, PREC_UNARY, *args, **kwargs)
+        if child.startswith('.not.'):
+            # ``.not..not.a`` is not a valid expression
+            child = f'({child})'
+        return self.parenthesize_if_needed(".not." + child, enclosing_prec, PREC_UNARY)
 
     def map_logical_and(self, expr, enclosing_prec, *args, **kwargs):
         return self.parenthesize_if_needed(
